@@ -364,28 +364,62 @@ def extract(repo="/repo"):
         read("machines/math/src/op_assign/%s_assign.rs" % op, ["%s_assign_%s" % (op, s) for s in OP_SUFFIXES])
     return out
 
+STATEMENTS_RS = "src/interpreter/src/statements.rs"
+
+def read_dispatch(text):
+    """the arms of `op_assign!` (statements.rs): per subscript pattern and index shape the struct whose `compile` is
+    pushed on the plan, and whether its name is built from the operator (`[<$op AssignRange>]`)"""
+    bodies = macro_bodies(text)
+    if 'op_assign' not in bodies: raise Unrecognised("macro op_assign not found")
+    body = re.sub(r'//[^\n]*', '', bodies['op_assign'])
+    arms = []
+    for m in re.finditer(r'\[\s*(Subscript::\w+(?:\(\w*\))?(?:\s*,\s*Subscript::\w+(?:\(\w*\))?)*)\s*\]\s*=>\s*\{', body):
+        i, d = m.end(), 1
+        while d and i < len(body):
+            d += (body[i] == '{') - (body[i] == '}'); i += 1
+        block = body[m.end():i - 1]
+        subs = re.findall(r'Subscript::(\w+)', m.group(1))
+        for pm in re.finditer(r'(?:\[\s*(\w+)\s*,\s*(\w+)\s*\]\s*=>\s*)?plan\s*\.\s*borrow_mut\(\)\s*\.\s*push\(\s*(?:\[<\s*\$op\s+(\w+)\s*>\]|(\w+))\s*\{\s*\}\s*\.\s*compile\(', block):
+            shape = "%s,%s" % (pm.group(1), pm.group(2)) if pm.group(1) else ""
+            arms.append((subs, shape, pm.group(3) or pm.group(4), pm.group(3) is not None))
+    if len(arms) != len(re.findall(r'plan\s*\.\s*borrow_mut\(\)\s*\.\s*push\s*\(', body)): raise Unrecognised("op_assign!: a `plan.borrow_mut().push(` that is not `…push(<struct>{}.compile(` inside a `[Subscript::…] =>` arm")
+    if not arms: raise Unrecognised("op_assign!: no arm")
+    uses = re.findall(r'op_assign!\(\s*(\w+)\s*,\s*(\w+)\s*\)', re.sub(r'//[^\n]*', '', text))
+    return arms, uses
+
 def lean_kir(k):
     name, row, col, co, hoist, src, op = k
     return '   ("%s", ⟨%s, %s, %s, %s, %s, %s⟩)' % (name, "none" if row is None else "some (%s)" % row, col,
                                                     "true" if co else "false", "true" if hoist else "false", src, op)
 
 def generate(root, repo="/repo"):
-    try: ks = extract(repo)
+    try:
+        ks = extract(repo)
+        arms, uses = read_dispatch(open(os.path.join(repo, STATEMENTS_RS), newline='').read().replace('\r\n', '\n'))
     except (Unrecognised, OSError) as e: return False, "C04 assign-kernel extraction failed: %s" % e
     L = ["/- GENERATED by tools/extract_assign.py from src/interpreter/src/stdlib/assign/matrix.rs and",
          "   machines/math/src/op_assign/{add,sub,mul,div}_assign.rs — do not edit. -/",
          "import MechVerif.Lemmas.AssignIR", "namespace MechVerif.Gen.AssignKernels", "open MechVerif.AccessIR MechVerif.AssignIR", "",
          "/-- (kernel macro, what its body says) -/", "def kernels : List (String × KIR) :=", "  ["]
     L.append(",\n".join(lean_kir(k) for k in ks) + "]")
+    L += ["", "/-- the arms of `op_assign!` (src/interpreter/src/statements.rs): subscript pattern, shape of the index, the struct that is",
+          "    compiled, whether its name is built from the operator -/", "def opArms : List OpArm :=", "  ["]
+    L.append(",\n".join('   ⟨[%s], "%s", "%s", %s⟩' % (", ".join('"%s"' % x for x in subs), shape, st, "true" if per else "false")
+                        for subs, shape, st, per in arms) + "]")
+    L += ["", "/-- the instances of `op_assign!`: (function, operator) -/", "def opAssignUses : List (String × String) :=",
+          "  [" + ", ".join('("%s", "%s")' % u for u in uses) + "]"]
     L += ["", "/-- every kernel the signature table names is extracted; a kernel listed in `knownDeviations` has exactly the listed shape,",
           "    which is not accepted; every other kernel, as written, is accepted for what it is meant to do -/",
           "theorem C04_assign_kernels_as_written_ok : tableOk kernels = true := by decide",
+          "", "/-- every arm of `op_assign!` compiles a struct of the statement's own operator, of the family its subscripts call for, or is a",
+          "    listed deviation with exactly this struct; the four operators are instantiated with their own names -/",
+          "theorem C04_op_assign_arms_as_written_ok : armsOk opArms opAssignUses = true := by decide",
           "", "end MechVerif.Gen.AssignKernels", ""]
     text = "\n".join(L)
     out = os.path.join(root, 'lean', 'MechVerif', 'Gen', 'AssignKernels.lean')
     old = open(out).read() if os.path.exists(out) else None
     if old != text: open(out, 'w').write(text)
-    return True, "C04 assign kernels extracted: %d macros" % len(ks)
+    return True, "C04 assign kernels extracted: %d macros, %d op_assign! arms" % (len(ks), len(arms))
 
 if __name__ == '__main__':
     root = os.path.dirname(os.path.dirname(os.path.abspath(__file__)))
